@@ -316,6 +316,11 @@ SAFE_BUILTINS = frozenset(
 # Sources: Bandit, RestrictedPython INSPECT_ATTRIBUTES
 DANGEROUS_ATTRS = frozenset(
     {
+        # === Attribute access by name / evaluation of strings (getattr in disguise) ===
+        "attrgetter",  # operator.attrgetter("_os.system")(random)
+        "methodcaller",  # operator.methodcaller("system", cmd)(module)
+        "get_type_hints",  # typing.get_type_hints evaluates string annotations
+        "get_field",  # string.Formatter().get_field("0._os", ...)
         # === File operations ===
         "write",
         "writelines",
@@ -497,6 +502,11 @@ class SafetyAnalyzer(ast.NodeVisitor):
             self._add(node, "import", f"dangerous module: {module}")
         elif module not in SAFE_MODULES and root not in SAFE_MODULES:
             self._add(node, "import", f"unknown module: {module}")
+        else:
+            # from operator import attrgetter: the name would then be used without its module
+            for alias in node.names:
+                if alias.name in DANGEROUS_ATTRS or alias.name == "*":
+                    self._add(node, "import", f"dangerous name: {alias.name}")
 
         self.generic_visit(node)
 
